@@ -10,7 +10,7 @@ for pid in ids:
     if pid not in REGISTRY: continue
     c = REGISTRY[pid]; proved = bool(c.get('P'))
     tech = ('contract-based deductive verification: VCs generated from the real source (ast) against sidecar contracts, discharged by z3/cvc5' if proved else '') + \
-           (('; ' if proved else 'contract-based: ') + 'syntactic contract obligations decided on the real AST (argument forwarding / guard placement; soft: undecided without a bounded witness)') if c.get('S') else '') + \
+           ((('; ' if proved else 'contract-based: ') + 'syntactic contract obligations decided on the real AST (argument forwarding / guard placement; soft: undecided without a bounded witness)') if c.get('S') else '') + \
            ('; ' if (proved or c.get('S')) and c.get('R') else '') + ('bounded run-time contracts of the real functions against oracles written from the property (labelled bounded, never counted as proved)' if c.get('R') else '')
     checks.append({"property_id": pid, "quick_cmd": "./check %s --tier quick" % pid, "thorough_cmd": "./check %s --tier thorough" % pid, "evidence_file": "evidence/%s.json" % pid,
                    "replay_cmd_template": "./check %s --replay {path}" % pid, "engine": "pyvc+rtc" if proved and c.get('R') else ("pyvc" if proved else "rtc"),
